@@ -28,7 +28,7 @@ M = {
  ],
  "C03": [
   ("exporter-drops-fixed-skip", PG + "place_global.cpp", "    if (circuit.isFixed(i)) {\n      continue;\n    }\n    circuit.cellX_[i] = std::round(xplace[i]", "    circuit.cellX_[i] = std::round(xplace[i]", V, ["G5"]),
-  ("global-placement-writes-orientation", PG + "place_global.cpp", "    circuit.cellY_[i] = std::round(yplace[i] - 0.5 * circuit.placedHeight(i));\n", "    circuit.cellY_[i] = std::round(yplace[i] - 0.5 * circuit.placedHeight(i));\n    circuit.cellOrientation_[i] = CellOrientation::N;\n", V, ["W3"]),
+  ("global-placement-writes-orientation", PG + "place_global.cpp", "    circuit.cellY_[i] = std::round(yplace[i] - 0.5 * circuit.placedHeight(i));\n", "    circuit.cellY_[i] = std::round(yplace[i] - 0.5 * circuit.placedHeight(i));\n    circuit.cellOrientation_[i] = CellOrientation::N;\n", V, ["REACH"]),
   ("fixed-cells-get-demand", PG + "density_grid.cpp", "    if (circuit.isFixed(i)) {\n      demands.push_back(0LL);\n    } else {\n      demands.push_back(circuit.area(i));\n    }\n  }\n  return HierarchicalDensityPlacement(grid, demands);", "    if (circuit.isFixed(i)) {\n      demands.push_back(circuit.area(i));\n    } else {\n      demands.push_back(circuit.area(i));\n    }\n  }\n  return HierarchicalDensityPlacement(grid, demands);", V, ["G6"]),
   ("stage-calls-setter", PD + "place_detailed.cpp", "  leg.exportPlacement(circuit);\n", "  leg.exportPlacement(circuit);\n  circuit.setCellWidth(circuit.cellWidth());\n", V, ["REACH"]),
   ("benign-guard-idiom", PG + "net_model.cpp", "    if (!circuit.isFixed(i)) {\n      circuit.cellX_[i] = std::round(xplace[i] - 0.5f * circuit.placedWidth(i));\n    }", "    if (circuit.isFixed(i)) {\n      continue;\n    }\n    circuit.cellX_[i] = std::round(xplace[i] - 0.5f * circuit.placedWidth(i));", H, []),
@@ -63,6 +63,8 @@ M = {
   ("product-widened-late", PD + "row_legalizer.cpp", "    cur_cost += static_cast<long long>(old_pos - cur_pos) * (slope + width);", "    cur_cost += (old_pos - cur_pos) * (slope + width);", V, ["M1"]),
   ("area-in-int", "src/coloquinte.hpp", "  long long area() const { return (long long)width() * (long long)height(); }", "  long long area() const { return width() * height(); }", V, ["M1"]),
   ("cost-narrowed", PD + "abacus_legalizer.cpp", "  long long dist =\n      rowLegalizers_[row].getCost(cellWidth_[cell], cellTargetX_[cell]);", "  int dist =\n      rowLegalizers_[row].getCost(cellWidth_[cell], cellTargetX_[cell]);", V, ["M2"]),
+  ("capacity-share-in-int", PG + "transportation.cpp", "  DemandType added = missing / nbSinks();", "  int added = missing / nbSinks();", V, ["M2"]),
+  ("benign-remainder-in-int", PG + "transportation.cpp", "  assert(missing >= 0LL && missing < nbSinks());", "  int rem = missing % nbSinks();\n  (void)rem;\n  assert(missing >= 0LL && missing < nbSinks());", H, []),
   ("benign-cast-style", PD + "row_legalizer.cpp", "    cur_cost += static_cast<long long>(old_pos - cur_pos) * (slope + width);", "    cur_cost += (long long)(old_pos - cur_pos) * (slope + width);", H, []),
  ],
  "C08": [
@@ -90,6 +92,10 @@ M = {
   ("no-repush", PD + "row_legalizer.cpp", "    for (Bound b : passed_bounds) {\n      bounds.push(b);\n    }", "    (void)passed_bounds;", V, ["R6"]),
   ("state-written-on-query", PD + "row_legalizer.cpp", "  if (update) {\n    cumWidth_.push_back(width + usedSpace());", "  cumWidth_.push_back(width + usedSpace());\n  if (update) {", V, ["G11"]),
   ("getCost-commits", PD + "row_legalizer.cpp", "  return getDisplacement(width, targetPos, false);", "  return getDisplacement(width, targetPos, true);", V, ["QP"]),
+  ("tie-jumps-to-target", PD + "row_legalizer.cpp", "slope >= 0 ? cur_pos : targetAbsPos", "slope > 0 ? cur_pos : targetAbsPos", V, ["TS"]),
+  ("bound-guard-on-wrong-variable", PD + "row_legalizer.cpp", "    if (targetAbsPos > begin_) {", "    if (targetPos > begin_) {", V, ["BP"]),
+  ("benign-descent-through-ties", PD + "row_legalizer.cpp", "((slope < 0 and bounds.top()", "((slope <= 0 and bounds.top()", H, []),
+  ("benign-selector-arms-swapped", PD + "row_legalizer.cpp", "slope >= 0 ? cur_pos : targetAbsPos", "slope < 0 ? targetAbsPos : cur_pos", H, []),
   ("save-dropped", PD + "row_legalizer.cpp", "    if (not update) {\n      passed_bounds.push_back(bounds.top());\n    }\n", "", V, ["R6"]),
   ("benign-save-always", PD + "row_legalizer.cpp", "    if (not update) {\n      passed_bounds.push_back(bounds.top());\n    }\n", "    passed_bounds.push_back(bounds.top());\n", H, []),
  ],
@@ -117,6 +123,10 @@ M = {
   ("star-weight-ignores-net-weight", PG + "net_model.cpp", "    float w = topo_.netWeight(net) / nb;\n    int c = addCell(0.0f);", "    float w = 1.0f / nb;\n    int c = addCell(0.0f);", V, ["QD"]),
   ("weight-squared", PG + "net_model.cpp", "  float w = topo_.netWeight(net) / (topo_.nbPins(net) - 1);\n  for (int i = 0; i < topo_.nbPins(net); ++i) {\n    float pos", "  float w = topo_.netWeight(net) * topo_.netWeight(net) / (topo_.nbPins(net) - 1);\n  for (int i = 0; i < topo_.nbPins(net); ++i) {\n    float pos", V, ["QD"]),
   ("topology-drops-weight", PG + "net_model.cpp", "    ret.addNet(cells, offsets, minPos, maxPos, circuit.netWeight(i));\n  }\n  ret.check();\n  return ret;\n}\n\nNetModel NetModel::yTopology", "    ret.addNet(cells, offsets, minPos, maxPos, 1.0f);\n  }\n  ret.check();\n  return ret;\n}\n\nNetModel NetModel::yTopology", V, ["PV"]),
+  ("tolerance-tied-to-rhs", PG + "net_model.cpp", "  solver.setTolerance(tolerance);", "  solver.setTolerance(tolerance / std::max(1.0f, rhs.norm()));", V, ["QH"]),
+  ("absolute-threshold-on-weight", PG + "net_model.cpp", "  rhs_[c1] += weight * (pos - offs1);\n  hasNonZero_[c1] = 1;", "  rhs_[c1] += weight * (pos - offs1);\n  if (weight > 1.0e-8f) hasNonZero_[c1] = 1;", V, ["QH"]),
+  ("small-weights-dropped", PG + "net_model.cpp", "  if (c1 == c2) {\n    return;\n  }\n  if (c1 == -1) {", "  if (c1 == c2 || weight < 1.0e-6f) {\n    return;\n  }\n  if (c1 == -1) {", V, ["QH"]),
+  ("benign-zero-weight-skipped", PG + "net_model.cpp", "  if (c1 == c2) {\n    return;\n  }\n  if (c1 == -1) {", "  if (c1 == c2 || weight == 0.0f) {\n    return;\n  }\n  if (c1 == -1) {", H, []),
   ("benign-commuted-product", PG + "net_model.cpp", "  rhs_[c1] += weight * (pos - offs1);", "  rhs_[c1] += (pos - offs1) * weight;", H, []),
  ],
  "C18": [
@@ -137,6 +147,9 @@ M = {
   ("setCellX-length-unchecked", "src/coloquinte.cpp", "void Circuit::setCellX(const std::vector<int> &x) {\n  if ((int)x.size() != nbCells()) {\n    throw std::runtime_error(\n        \"Number of elements is not the same as the number of cells of the \"\n        \"circuit\");\n  }\n", "void Circuit::setCellX(const std::vector<int> &x) {\n", V, ["G17"]),
   ("addNet-upper-bound-only", "src/coloquinte.cpp", "    if (c < 0 || c >= nbCells()) {\n      throw std::runtime_error(\"Net pin refers to a cell that does not exist\");\n    }\n  }\n  checkNotInUse();\n  if (cells.empty()) {", "    if (c >= nbCells()) {\n      throw std::runtime_error(\"Net pin refers to a cell that does not exist\");\n    }\n  }\n  checkNotInUse();\n  if (cells.empty()) {", V, ["G18"]),
   ("effort-window-too-wide", "src/parameters.cpp", "  if (effort < 1 || effort > 9) {\n    throw std::runtime_error(\"Placement effort must be between 1 and 9\");\n  }\n}\n\ndouble interpolateEffort", "  if (effort < 0 || effort > 9) {\n    throw std::runtime_error(\"Placement effort must be between 1 and 9\");\n  }\n}\n\ndouble interpolateEffort", V, ["B1"]),
+  ("effort-9-default-on-float-bound", "src/parameters.cpp", "  targetBlending = 0.0;\n  int squareSizeArray", "  targetBlending = interpolateEffort(0.0, 0.9, effort);\n  int squareSizeArray", V, ["T4"]),
+  ("effort-1-too-few-passes", "src/parameters.cpp", "  shiftNbRows = 3;", "  shiftNbRows = std::round(interpolateEffort(0.0, 4.0, effort));", V, ["T4"]),
+  ("benign-default-varies-within-bounds", "src/parameters.cpp", "  targetBlending = 0.0;\n  int squareSizeArray", "  targetBlending = interpolateEffort(0.0, 0.5, effort);\n  int squareSizeArray", H, []),
   ("benign-mirrored-length-test", "src/coloquinte.cpp", "void Circuit::setCellY(const std::vector<int> &y) {\n  if ((int)y.size() != nbCells()) {", "void Circuit::setCellY(const std::vector<int> &y) {\n  if (nbCells() != (int)y.size()) {", H, []),
  ],
  "C20": [
@@ -164,8 +177,16 @@ R = {
  "C06": [("rename-spread-locals", [{"file": PG + "density_grid.cpp", "regex": r"\bdem\b", "replace": "acc"}, {"file": PG + "density_grid.cpp", "regex": r"\bcoords\b", "replace": "out"}], H)],
  "C03": [("rename-exporter", [{"file": PG + "place_global.cpp", "regex": r"\bexportPlacement\b", "replace": "writeBack"}, {"file": PG + "place_global.hpp", "regex": r"\bexportPlacement\b", "replace": "writeBack"}], NV)],
  "C15": [("rename-obstacle-list", [{"file": "src/coloquinte.cpp", "regex": r"\bobstacles\b", "replace": "blocked"}, {"file": "src/coloquinte.hpp", "regex": r"\bobstacles\b", "replace": "blocked"}], H)],
- "C12": [("rename-save-list", [{"file": PD + "row_legalizer.cpp", "regex": r"\bpassed_bounds\b", "replace": "popped"}], H)],
+ "C12": [("correct-placement-cache", [
+    {"file": PD + "row_legalizer.hpp", "regex": r"  std::priority_queue<Bound> bounds;\n\};", "replace": "  std::priority_queue<Bound> bounds;\n  mutable std::vector<int> placement_;\n  mutable bool placementValid_ = false;\n};"},
+    {"file": PD + "row_legalizer.cpp", "regex": r"  if \(update\) \{\n    cumWidth_\.push_back", "replace": "  if (update) {\n    placementValid_ = false;\n    cumWidth_.push_back"},
+    {"file": PD + "row_legalizer.cpp", "regex": r"  constrainingPos_\.clear\(\);\n\}", "replace": "  constrainingPos_.clear();\n  placementValid_ = false;\n}"},
+    {"file": PD + "row_legalizer.cpp", "regex": r"std::vector<int> RowLegalizer::getPlacement\(\) const \{\n", "replace": "std::vector<int> RowLegalizer::getPlacement() const {\n  if (placementValid_) {\n    return placement_;\n  }\n"},
+    {"file": PD + "row_legalizer.cpp", "regex": r"    assert\(finalAbsPos\[i\] \+ cumWidth_\[i \+ 1\] <= end_\);\n  \}\n  return ret;", "replace": "    assert(finalAbsPos[i] + cumWidth_[i + 1] <= end_);\n  }\n  placement_ = ret;\n  placementValid_ = true;\n  return ret;"},
+  ], H),
+         ("rename-save-list", [{"file": PD + "row_legalizer.cpp", "regex": r"\bpassed_bounds\b", "replace": "popped"}], H)],
  "C17": [("rename-local-weights", [{"file": PG + "net_model.cpp", "regex": r"\bdistW\b", "replace": "wd"}, {"file": PG + "net_model.cpp", "regex": r"\bstrength\b", "replace": "k"}], H)],
+ "C07": [("rename-locals", [{"file": PG + "net_model.cpp", "regex": r"\bnb\b", "replace": "npins"}, {"file": PG + "density_legalizer.cpp", "regex": r"\bstrideX\b", "replace": "sx"}, {"file": PD + "place_detailed.cpp", "regex": r"\boverlap\b", "replace": "ovl"}], H)],
  "C19": [("rename-helper", [{"file": "src/parameters.cpp", "regex": r"\bcheckEffort\b", "replace": "requireValidEffort"}], H)],
  "C10": [("rename-guard-class", [{"file": "src/coloquinte.cpp", "regex": r"\bInUseGuard\b", "replace": "BusyScope"}], H)],
  "C08": [("rename-async-locals", [{"file": PG + "place_global.cpp", "regex": r"\bpenalty\b(?!\.)", "replace": "pen"}], NV)],
